@@ -45,7 +45,7 @@ def run_I8(ctx, case):
         it.mem.store(Ptr('vm', O['mem'] + tm[0]), mx0, 4); it.mem.store(Ptr('vm', O['mem'] + tm[1]), ma0, 4); it.mem.store(Ptr('vm', O['dsoff']), dso, 8)
         fk['pc'] += [z3.ULE(dso, P.DATASET_EXTRA), dso & 63 == 0]                                  # established by I7
         if light:
-            cache = it.mem.alloc(64, 'cacheobj'); it.mem.store(Ptr('vm', O['cptr']), cache, 8); it.mem.store(Ptr('vm', O['mem'] + tm[2]), Ptr('cachemem', 0), 8)
+            cache = it.mem.alloc(64, 'cacheobj'); it.mem.share('cacheobj'); it.mem.store(Ptr('vm', O['cptr']), cache, 8); it.mem.store(Ptr('vm', O['mem'] + tm[2]), Ptr('cachemem', 0), 8)
             def idi(s, a):      # initDatasetItem(cache, out, itemNumber)
                 ok = isinstance(a[0], Ptr) and a[0].obj == 'cacheobj'
                 ev.append(('initDatasetItem', a[2], ok))
@@ -53,7 +53,7 @@ def run_I8(ctx, case):
                 return None
             it.hooks['_ZN7randomx15initDatasetItemEP13randomx_cachePhm'] = idi
         else:
-            ds = it.mem.mkarr('dataset', P.DATASET_BASE + P.DATASET_EXTRA); it.mem.store(Ptr('vm', O['mem'] + tm[2]), ds, 8); D0 = it.mem.objs['dataset']['arr']
+            ds = it.mem.mkarr('dataset', P.DATASET_BASE + P.DATASET_EXTRA); it.mem.store(Ptr('vm', O['mem'] + tm[2]), ds, 8); D0 = it.mem.objs['dataset']['arr']; it.mem.share('dataset')
         A = [[z3.BitVec('a%d_%d' % (i, l), 64) for l in range(2)] for i in range(4)]
         treg = resolve(NamedT('struct.randomx::RegisterFile', mod)).layout()[0]
         for i in range(4):
